@@ -971,7 +971,7 @@ func (ex *Exec) runFrame(fr *frame) {
 	}()
 	for {
 		b := fr.block
-		if ex.sh.LoopBound > 0 && len(b.Preds) > 1 {
+		if ex.sh.LoopBound > 0 && len(b.Preds) > 1 && ex.inInit == 0 {
 			if fr.visits == nil {
 				fr.visits = map[*ssa.BasicBlock]int{}
 			}
